@@ -122,6 +122,15 @@ example :
      | _ => false) = true := by
   decide +kernel
 
+/-- **Any reader**: the scripted readers are one instance.  Whatever the reader is — buffered,
+fragmenting, retrying — if its `read_exact` and its byte-vector read answer like the slice's on
+related states (`RdSim`), then decoding any type from it gives the slice decoder's result and
+leaves it in a state related to the remaining slice. -/
+theorem C11_any_reader {σ : Type} (R : Bytes → σ → Prop) (rd : Rd σ) (h : RdSim R Rd.slice rd)
+    (st : Bool) (t : Ty) (bs : Bytes) (s : σ) (hR : R bs s) :
+    OutRel R (deserialize st t bs) (deserializeReader rd st t s) :=
+  de_sim h t st bs s hR
+
 /-! ### a genuine reader failure -/
 
 /-- slice and scripted reader stand at the same point of the stream `d`, at or before offset `o` -/
